@@ -58,31 +58,60 @@ pub fn walk(arch: &[u8]) -> Result<Vec<Entry>, String> {
 	Ok(out)
 }
 
-/// Writes an archive of regular files (GNU magic, mode 0644), terminated by two zero blocks.
+fn put_header(out: &mut Vec<u8>, name: &[u8], size: usize, typeflag: u8) {
+	let mut h = [0u8; 512];
+	h[..name.len().min(100)].copy_from_slice(&name[..name.len().min(100)]);
+	h[100..108].copy_from_slice(b"0000644\0");
+	h[108..116].copy_from_slice(b"0000000\0");
+	h[116..124].copy_from_slice(b"0000000\0");
+	let sz = format!("{:011o}\0", size);
+	h[124..136].copy_from_slice(sz.as_bytes());
+	h[136..148].copy_from_slice(b"00000000000\0");
+	h[156] = typeflag;
+	h[257..265].copy_from_slice(b"ustar  \0");
+	for b in h[148..156].iter_mut() {
+		*b = b' ';
+	}
+	let sum: usize = h.iter().map(|b| *b as usize).sum();
+	let cs = format!("{:06o}\0 ", sum);
+	h[148..156].copy_from_slice(cs.as_bytes());
+	out.extend_from_slice(&h);
+}
+
+fn put_data(out: &mut Vec<u8>, data: &[u8]) {
+	out.extend_from_slice(data);
+	let pad = (512 - data.len() % 512) % 512;
+	out.extend(std::iter::repeat(0u8).take(pad));
+}
+
+/// Writes an archive of regular files (GNU magic, mode 0644), terminated by two zero blocks.  A name longer
+/// than the 100-byte header field is carried the way tar tools carry it: a GNU long-name record (names of even
+/// length) or a PAX extended header with a `path` record (odd length), followed by the member whose header
+/// holds the first 100 bytes of the name.
 pub fn write(entries: &[(String, Vec<u8>)]) -> Vec<u8> {
 	let mut out = vec![];
 	for (name, data) in entries {
-		let mut h = [0u8; 512];
 		let nb = name.as_bytes();
-		h[..nb.len().min(100)].copy_from_slice(&nb[..nb.len().min(100)]);
-		h[100..108].copy_from_slice(b"0000644\0");
-		h[108..116].copy_from_slice(b"0000000\0");
-		h[116..124].copy_from_slice(b"0000000\0");
-		let sz = format!("{:011o}\0", data.len());
-		h[124..136].copy_from_slice(sz.as_bytes());
-		h[136..148].copy_from_slice(b"00000000000\0");
-		h[156] = b'0';
-		h[257..265].copy_from_slice(b"ustar  \0");
-		for b in h[148..156].iter_mut() {
-			*b = b' ';
+		if nb.len() > 100 {
+			if nb.len() % 2 == 0 {
+				let mut d = nb.to_vec();
+				d.push(0);
+				put_header(&mut out, b"././@LongLink", d.len(), b'L');
+				put_data(&mut out, &d);
+			} else {
+				// "<len> path=<name>\n", len counting itself
+				let body = format!(" path={}\n", name);
+				let mut len = body.len() + 1;
+				while len != body.len() + len.to_string().len() {
+					len = body.len() + len.to_string().len();
+				}
+				let rec = format!("{}{}", len, body);
+				put_header(&mut out, b"PaxHeaders.0/member", rec.len(), b'x');
+				put_data(&mut out, rec.as_bytes());
+			}
 		}
-		let sum: usize = h.iter().map(|b| *b as usize).sum();
-		let cs = format!("{:06o}\0 ", sum);
-		h[148..156].copy_from_slice(cs.as_bytes());
-		out.extend_from_slice(&h);
-		out.extend_from_slice(data);
-		let pad = (512 - data.len() % 512) % 512;
-		out.extend(std::iter::repeat(0u8).take(pad));
+		put_header(&mut out, nb, data.len(), b'0');
+		put_data(&mut out, data);
 	}
 	out.extend(std::iter::repeat(0u8).take(1024));
 	out
